@@ -30,16 +30,16 @@ func (t *c29GT) unfinished() bool {
 }
 
 type c29G struct {
-	r       *Rng
-	lines   []string
-	nW      int
-	nextT   int
-	threads []*c29GT
-	sidN    int
-	sids    []string // sids used so far (any worker)
-	perW    map[int][]string
-	opens   int // estimate of published tokens
-	idents  []string
+	r        *Rng
+	lines    []string
+	nW       int
+	nextT    int
+	threads  []*c29GT
+	sidN     int
+	sids     []string // sids used so far (any worker)
+	perW     map[int][]string
+	opens    int // estimate of published tokens
+	idents   []string
 	blockers []string // "w sid" of sessions whose Close blocks
 }
 
@@ -298,6 +298,18 @@ func (g *c29G) randomOps(n int) {
 				g.release()
 				continue
 			}
+			if r.Chance(25) {
+				tok := g.tokenRef(w)
+				var pred *c29GT
+				if u := g.realUnfinished(); len(u) > 0 {
+					pred = u[0]
+				}
+				pr := Pick(r, []string{"s", "s,b,s", "s,c,s", "b", "-"})
+				g.add("xcall %d %d %s %s %s %s", g.nextT, w, g.ident(), tok, Pick(r, []string{"init", "cont", "exch", "cancel"}), pr)
+				g.threads = append(g.threads, &c29GT{id: g.nextT, rem: strings.Count(pr, "b"), real: tok != "-" && !strings.HasPrefix(tok, "G"), pred: pred})
+				g.nextT++
+				continue
+			}
 			g.startCall(w, g.ident(), g.tokenRef(w), r.Chance(40), true)
 		case x < 54:
 			if !canReal {
@@ -368,24 +380,42 @@ func c29GenLocal(gen *Gen) {
 			g.nextT = 1
 			g.opens = 1
 			hold := Pick(r, []string{"s,b,s", "b,c,s", "s,b,b,s", "b,p", "b,c,o2/" + g.newSid(w) + ",s", "b"})
+			kinds := []string{"unary", "init", "cont", "exch", "cancel"}
+			hk, wkind := Pick(r, kinds), Pick(r, kinds)
+			if gen.Thorough() {
+				hk, wkind = kinds[(i/5)%5], kinds[i%5] // every pair of route kinds, over and over
+			}
+			if hk != "unary" {
+				hold = Pick(r, []string{"s,b,s", "b,c,s", "s,b,b,s", "b"}) // stream turns cannot open, and do not script panics
+			}
 			nb := strings.Count(hold, "b")
-			g.add("call 1 %d %s T0 %d %s", w, id, r.Intn(2), hold)
+			if hk == "unary" {
+				g.add("call 1 %d %s T0 %d %s", w, id, r.Intn(2), hold)
+			} else {
+				g.add("xcall 1 %d %s T0 %s %s", w, id, hk, hold)
+			}
 			holder := &c29GT{id: 1, rem: nb, real: true}
 			g.threads = append(g.threads, holder)
 			g.nextT = 2
-			switch r.Intn(4) {
-			case 0:
-				g.add("delete 2 %d %s T0", w, id)
-				g.threads = append(g.threads, &c29GT{id: 2, real: true, pred: holder})
-			case 1:
-				g.add("call 2 %d %s T0+pad 0 s,c,s", w, id)
-				g.threads = append(g.threads, &c29GT{id: 2, real: true, pred: holder})
-			case 2:
-				g.add("call 2 %d %s T0 0 s,b,s", w, id)
-				g.threads = append(g.threads, &c29GT{id: 2, rem: 1, real: true, pred: holder})
-			default:
-				g.add("call 2 %d %s T0 0 -", w, Pick(r, []string{id, g.ident()}))
-				g.threads = append(g.threads, &c29GT{id: 2, real: true, pred: holder})
+			if wkind != "unary" {
+				wp := Pick(r, []string{"s", "s,b,s", "s,c,s", "-"})
+				g.add("xcall 2 %d %s T0 %s %s", w, id, wkind, wp)
+				g.threads = append(g.threads, &c29GT{id: 2, rem: strings.Count(wp, "b"), real: true, pred: holder})
+			} else {
+				switch r.Intn(4) {
+				case 0:
+					g.add("delete 2 %d %s T0", w, id)
+					g.threads = append(g.threads, &c29GT{id: 2, real: true, pred: holder})
+				case 1:
+					g.add("call 2 %d %s T0+pad 0 s,c,s", w, id)
+					g.threads = append(g.threads, &c29GT{id: 2, real: true, pred: holder})
+				case 2:
+					g.add("call 2 %d %s T0 0 s,b,s", w, id)
+					g.threads = append(g.threads, &c29GT{id: 2, rem: 1, real: true, pred: holder})
+				default:
+					g.add("call 2 %d %s T0 0 -", w, Pick(r, []string{id, g.ident()}))
+					g.threads = append(g.threads, &c29GT{id: 2, real: true, pred: holder})
+				}
 			}
 			g.nextT = 3
 			// things that happen while the session is held
@@ -654,6 +684,7 @@ func c29Stress(c *Case, parent *c29World, seed, n, k int) string {
 	}
 	wg.Wait()
 	sw.workers[0].h.DrainHandle().Shutdown()
+	drainOpen := c29DrainSearch(c, seed, n)
 	overlaps := 0
 	sw.mu.Lock()
 	for _, o := range sw.oracles {
@@ -680,7 +711,75 @@ func c29Stress(c *Case, parent *c29World, seed, n, k int) string {
 		locks = "left:" + hex.EncodeToString(e.SID)
 		c.Oracle("removed-not-closed", "stress: an entry survived shutdown")
 	}
-	return fmt.Sprintf("overlap=%d closes=%s locks=%s lostafter=%d", overlaps-overlapBase, closes, locks, lostAfter)
+	return fmt.Sprintf("overlap=%d closes=%s locks=%s lostafter=%d drainopen=%d", overlaps-overlapBase, closes, locks, lostAfter, drainOpen)
+}
+
+// c29DrainSearch is a SEARCH (no forced schedule is possible without a hook between the drain check
+// and the insert): goroutines open sessions on a fresh worker while Drain() and then Shutdown() run;
+// the entropy source is made slow so that an open spends a while between reading the drain flag
+// and inserting. Afterwards no session may have been opened after Drain returned, and every session
+// that was ever registered must have been closed exactly once.
+func c29DrainSearch(c *Case, seed, n int) int {
+	bad := 0
+	for round := 0; round < 6; round++ {
+		dw := &c29World{byID: map[int]*c29Thread{}, states: map[string]*c29State{}}
+		dw.workers = []*c29Worker{c29NewWorker(dw, bytes.Repeat([]byte{byte(seed + round)}, 32), "D", 3)}
+		c29Cur.Store(dw)
+		c29Rd.slow.Store(int64(300 * time.Microsecond))
+		var wg sync.WaitGroup
+		stop := make(chan struct{})
+		for i := 0; i < n; i++ {
+			wg.Add(1)
+			go func(i int) {
+				defer wg.Done()
+				for j := 0; ; j++ {
+					select {
+					case <-stop:
+						return
+					default:
+					}
+					t := &c29Thread{id: 1000*i + j, worker: 0, ident: "anon", tokSpec: "-", prog: []string{"O"}, accept: true,
+						status: "running", release: make(chan struct{})}
+					c29RunToDone(dw, t)
+				}
+			}(i)
+		}
+		time.Sleep(time.Duration(200+100*round) * time.Microsecond)
+		dh := dw.workers[0].h.DrainHandle()
+		dh.Drain()
+		drained := time.Now()
+		dh.Shutdown()
+		time.Sleep(2 * time.Millisecond) // let the opens that were in flight finish
+		close(stop)
+		wg.Wait()
+		c29Rd.slow.Store(0)
+		dw.mu.Lock()
+		states := append([]*c29State(nil), dw.all...)
+		dw.mu.Unlock()
+		for _, st := range states {
+			if !st.registered.Load() {
+				continue
+			}
+			// An insert that happened before the drain flag was set is seen by Shutdown (which runs after
+			// Drain) and closed; an OpenSession that read the flag before Drain but inserted after it leaves
+			// a session that Shutdown never closes.
+			if n := st.closes.Load(); n != 1 && bad < 3 {
+				bad++
+				cl := "opened-while-draining"
+				if n > 1 {
+					cl = "close-more-than-once"
+				}
+				c.Oracle(cl, fmt.Sprintf("concurrent search: a session whose OpenSession started %v before Drain() returned (and returned nil %v after it) had its state closed %d times after Drain()+Shutdown(): it was registered after draining began",
+					drained.Sub(st.openStarted), st.openedAt.Sub(drained), n))
+			}
+		}
+		if left := len(dw.workers[0].h.VerifC29Entries()); left > 0 && bad < 3 {
+			bad++
+			c.Oracle("opened-while-draining", fmt.Sprintf("concurrent search: %d session(s) are registered after Drain()+Shutdown()", left))
+		}
+		dw.workers[0].h.DrainHandle().Shutdown()
+	}
+	return bad
 }
 
 func c29RealReaper(c *Case, parent *c29World) string {
